@@ -63,14 +63,14 @@ CLAIMED.update({
     "C17": ("differential testing of count/include/exclude/functor/join against reference functions on generated scenarios",
             "Exploration: generated lists (bound tails, bound-variable elements), filter patterns with variables and $_, complex terms of arity 0-4 with exact/prefix*/variable functor arguments, word/punctuation sequences; every variable is exposed in the rule head so a leaked binding shows.",
             "Reference functions are written from the documentation.", "DESIGN.md §4 C17"),
-    "C18": ("crash oracle over grammar-generated, mutated and random strings fed to all nine parser entry points (proptest) plus a coverage-guided libFuzzer target in the thorough tier",
+    "C18": ("crash oracle over grammar-generated, mutated and random strings fed to all nine parser entry points (proptest-driven; about 1 million strings in the quick tier, 24 million in the thorough tier)",
             "Exploration: valid text, 1-3 character mutations of valid text and of the repository's test strings, random token soup; any panic is a violation identified by entry point and location.",
             "Non-termination of a parser would be reported by the watchdog as inconclusive, not as a violation.", "DESIGN.md §4 C18"),
     "C19": ("round-trip testing (render -> parse -> compare with the API-built value -> Display) over grammar-generated terms, goals and rules + exhaustive small terms and bodies",
             "Exploration: canonical text and accepted variants (tight commas, quoted atoms, infix comparison/arithmetic, bare zero-arity, redundant parentheses) must parse to the value built through the API from the same AST, and Display must reproduce the canonical text; small terms and and/or bodies enumerated completely.",
             "Canonical text parenthesises every nested operator goal except a conjunction inside a disjunction.", "DESIGN.md §4 C19"),
     "C20": ("metamorphic testing: the same term text in 14 syntactic contexts",
-            "Exploration: grammar terms, signed numbers, punctuation and odd atoms placed alone, as argument, list element, infix operand, query and fact argument; all contexts must yield the same term or all must reject.",
+            "Exploration: grammar terms, generated signed numbers (optional sign, 1-20 digits, optional fraction), punctuation and odd atoms placed alone, as argument, list element, infix operand, query and fact argument; all contexts must yield the same term or all must reject.",
             "Ids are stripped before comparing (query construction renames).", "DESIGN.md §4 C20"),
     "C21": ("differential testing of load_kb_from_file against rule-by-rule parse_rule over generated files with random legal layout",
             "Exploration: 1-5 generated rules laid out with breaks at the documented continuation characters, indentation, blank lines and #, %, // comments; the loaded knowledge base must equal the rule-by-rule one (class 2, breaks inside parentheses, may alternatively be rejected).",
@@ -81,6 +81,9 @@ CLAIMED.update({
     "C23": ("oracle-checked runs under the real timer thread: fast generated queries, calibrated slow queries on both sides of the 1 s limit, stray-timer rounds",
             "Exploration: solve/solve_all results must be a prefix of the real answers, complete unless followed by the timeout message, which may only appear after >= 0.95 s; fast queries must never time out; thousands of microsecond queries must not leave a timer that stops a later query.",
             "Timer-thread interleavings are sampled by real time, not controlled; overloaded-machine timings are counted as inconclusive discards.", "DESIGN.md §4 C23"),
+    "C24": ("generated programs and call histories (proptest) replayed through the public API under Miri as the undefined-behaviour detector (Stacked Borrows, data races, out-of-bounds, use-after-free)",
+            "Exploration: about 100 (quick) / 800 (thorough) generated histories - enumerate and re-ask, solve_all + solve, abandoned query + second query, parse + solve, timer firing during a search - executed under Miri in 16 parallel processes; any Undefined Behavior diagnostic is a violation identified by diagnostic kind and source location. The shallowest check of the set: hundreds of histories, not millions.",
+            "Miri's Stacked Borrows model is taken as the definition of aliasing UB; leaks are ignored; the timer thread's schedule is sampled (Miri scheduler seed = VERIF_SEED + shard), not enumerated. Needs `cargo +nightly miri` (pre-installed).", "DESIGN.md §4 C24"),
 })
 
 NOT_YET = {
@@ -118,17 +121,17 @@ def main():
         "setup_cmd": "./check build",
         "hooks": {
             "guard": "cargo feature `verif-hooks` of /repo (off by default)",
-            "enable": "harness/Cargo.toml depends on suiron-rust with features = [\"verif-hooks\"]; fuzz/ and miri/ crates do the same",
+            "enable": "harness/Cargo.toml depends on suiron-rust with features = [\"verif-hooks\"] (the same crate is what C24 runs under Miri)",
             "baseline_off_cmd": "cd /repo && (cargo nextest run --workspace --no-fail-fast --offline || cargo test --workspace --no-fail-fast --offline -- --test-threads=1)",
             "source_commits": hook_commits,
             "add_only": True,
         },
         "engines": [
             {"name": "sverif", "path": "/verif/harness", "serves_properties": sorted(CLAIMED.keys()),
-             "kind_free_text": "Rust harness: proptest-driven choice sequences decoded into terms/programs/histories, bounded-exhaustive enumeration of the same decoders, reference unifier and reference solver as oracles, fd-level stdout capture; driven by ./check (python) with 16 worker processes"},
+             "kind_free_text": "Rust harness: proptest-driven choice sequences decoded into terms/programs/histories, bounded-exhaustive enumeration of the same decoders, reference unifier and reference solver as oracles, fd-level stdout capture; driven by ./check (python) with 16 worker processes; for C24 the same binary replays a generated corpus under `cargo +nightly miri run` (special/c24.py)"},
         ],
         "checks": checks,
-        "notes": "All checks are property-based testing / fuzzing (see DESIGN.md). quick = fixed work (seconds), thorough = 20-50x more generated cases and complete enumeration of the bounded families. Exit 2 = inconclusive (build failure, watchdog), never a violation.",
+        "notes": "All checks are property-based testing / fuzzing (see DESIGN.md). quick = fixed work (seconds; C23 about 35 s, C24 about 1 min under Miri), thorough = 15-50x more generated cases and complete enumeration of the bounded families. Exit 2 = inconclusive (build failure, watchdog), never a violation. Runs with --cases/--workers overrides are experiments and write their evidence under work/evidence-adhoc, never to evidence/<id>.json.",
         "not_applicable": na,
     }
     with open(os.path.join(VERIF, "MANIFEST.json"), "w") as f:
